@@ -18,14 +18,23 @@ package safedetails
 //@ method (*withSafeDetails).SafeDetails
 //@   props C03 C11 C12
 //@   ensures result == self.safeDetails
+//@   ensures[C03] safeSeq(result)
 
 //@ func WithSafeDetails
 //@   props C10 C07
 //@   ensures err == nil ==> result == nil
 //@   ensures (err != nil && len(format) == 0 && len(args) == 0) ==> result == err
 //@   ensures (err != nil && !(len(format) == 0 && len(args) == 0)) ==> typeis(result, *withSafeDetails) && result.(*withSafeDetails).cause == err && len(result.(*withSafeDetails).safeDetails) == 1
+//@   props C03
 
 //@ func decodeWithSafeDetails
 //@   props C05 C01 C11
 //@   requires cause != nil
 //@   ensures typeis(result, *withSafeDetails) && result.(*withSafeDetails).cause == cause && result.(*withSafeDetails).safeDetails == safeDetails
+//@   requires[C03,C12] safeSeq(safeDetails)
+
+//@ type withSafeDetails invariant[C03,C12] safeSeq(self.safeDetails)
+
+//@ func Safe
+//@   props C03
+//@   requires[C03] safeAny(v)
